@@ -210,7 +210,7 @@ Proof.
   repeat (break_match; cbn [fst snd]); try discriminate.
   all: intros _;
     match goal with
-    | H : negb (of_interest ?r' h t) = false |- _ =>
+    | H : negb (of_interest ?r' _ _) = false |- _ =>
         apply negb_false_iff in H; rewrite <- H; apply of_interest_ext; reflexivity
     end.
 Qed.
@@ -281,9 +281,11 @@ Proof.
   assert (Fb : Forall (sep_rel s smp) base).
   { rewrite Forall_forall. intros x Hx.
     assert (Hx' : In x (r_samples r)) by (destruct Hbase as [-> | ->]; [exact Hx|eapply remove_first_in; exact Hx]).
-    apply sep_rel_sym. intros E a b Ea Eb. rewrite Hh in E. rewrite Hts in Eb. subst t.
-    pose proof (Ord x Hx' E) as L. rewrite Ea in L. cbn in L. apply Z.leb_le in L.
-    pose proof (of_interest_true_sep r h b s x a Hs Hi Hx' E Ea L). lia. }
+    apply sep_rel_sym. intros E ta tb Ea Eb. rewrite Hh in E.
+    assert (Et : t = Some tb) by congruence.
+    pose proof (Ord x Hx' E) as L. rewrite Ea, Et in L. cbn in L. apply Z.leb_le in L.
+    rewrite Et in Hi.
+    pose proof (of_interest_true_sep r h tb s x ta Hs Hi Hx' E Ea L). lia. }
   rewrite Hshape. destruct (q_bysrc (r_qos r)); [now apply insert_separated|now apply app_separated].
 Qed.
 
